@@ -12,7 +12,16 @@ P = {'id': 'C08',
               'untagged_aba_refuted',
               'narrow_generation_refuted',
               'treiber_aba_refuted',
-              'treiber_uaf_refuted'],
+              'treiber_uaf_refuted',
+              'fixedcap_no_double_owner',
+              'fixedcap_no_block_lost',
+              'fixedcap_free_lists_well_formed',
+              'fixedcap_holds_nodup',
+              'fixedcap_count_at_quiescence',
+              'fixedcap_stats_at_quiescence',
+              'fixedcap_generation_bound_by_steps',
+              'fixedcap_code_cfg_wf',
+              'fixedcap_untagged_refuted'],
  'trusted': ['modelled (M+S): src/memory/lockfree_pool.rs allocate_from_fast_bin / deallocate_to_fast_bin / allocate_new_block and src/memory/five_level_pool.rs '
              'LockFreePool::alloc_from_fast_bin_lockfree / free_to_fast_bin_lockfree (one bin, generation-tagged head, link word inside the block, count, bump '
              'allocation: load + compare-exchange of next_offset in lockfree_pool.rs, one step under the mutex in five_level_pool.rs) as a sequentially consistent small-step machine with one step per shared access; '
